@@ -188,7 +188,7 @@ def check(case: dict[str, Any], rec: Any) -> None:
                     d["cap"] = d["cap"] * c
             g3 = _soc(b3, working)
             rec.bucket("scale-invariance-checked")
-            if g3 is None or abs(g3 - got) > 1e-9 * max(1.0, got):
+            if g3 is None or not abs(g3 - got) <= 1e-9 * max(1.0, got):
                 rec.violation("soc-changes-under-common-capacity-factor", {**w, "factor": c, "after": g3})
     rec.nontrivial(n >= 2)
     rec.observed({"soc": got, "reference": w["reference"], "capacity": None if cs.value is None else cs.value.as_watt_hours()})
@@ -367,7 +367,7 @@ def check_integration(case: dict[str, Any], rec: Any) -> None:
     if cexp is None:
         if out.get("cap_last") is not None:
             rec.violation("integration:capacity-streamed-although-no-battery-qualifies", wc)
-    elif out.get("cap_last") is None or abs(out["cap_last"] - cexp) > 1e-9 * max(1.0, abs(cexp)):
+    elif out.get("cap_last") is None or not abs(out["cap_last"] - cexp) <= 1e-9 * max(1.0, abs(cexp)):
         rec.violation("integration:streamed-capacity-differs-from-sum-of-usable-capacities", wc)
     w = {"events_tail": case["events"][-8:], "working": sorted(working), "cache_model": bats, "emitted_last": out.get("last"),
          "n_results": out.get("n_results")}
